@@ -18,6 +18,7 @@ TECHNIQUE = 'explicit-state exploration of compile histories (fork per transitio
 ASSUMPTIONS = ['2^32 hash seeds cannot be enumerated: the seed axis is exhaustive over the stated list only',
                'the state hash covers module-level and class-level data attributes of modules loaded from the repository; state hidden in closures or C extensions is covered only by the undeduplicated all-pairs exploration']
 
+WORKERS = 8   # fork/page-fault heavy: this VM gives no speed-up beyond ~6-8 concurrent explorers (measured)
 INCANT = 'Signa inter verba conjugo, symbolum infixus evoco!'
 
 PROGRAMS = [
